@@ -49,3 +49,35 @@ Theorem C13_execute_split : forall O n m r r1,
   rt_execute O r n = Ok (r1, EvRunning) /\ rt_execute O r (n + m) = rt_execute O r1 m.
 Proof. exact execute_split. Qed.
 Print Assumptions C13_execute_split.
+
+(* ---- the two halves of CONT ---- *)
+(* the error path of execute() (STOP, ?BREAK, any error inside the program) saves the running state and the address of
+   the next instruction, and keeps stack, variables, program and listing *)
+Theorem C13_break_saves : forall r2 er r' e st, r_state r2 = st -> running_state st = true -> st = StRunning ->
+  r_pc r2 < r_entry r2 -> stack_is_full r2 = false ->
+  match r_state r2 with
+  | StInputRunning =>
+      let '(s, a) := unwind_input (r_stack r2) in
+      let r3 := set_stack r2 s in
+      let r4 := match a with Some addr => set_pc r3 addr | None => r3 end in
+      Ok (set_state r4 StInputRedo, EvRunning)
+  | st =>
+      let r3 := set_cont_pc (set_cont (set_state r2 (StRuntimeError (in_line er (cur_line r2)))) st) (r_pc r2) in
+      let r4 := if (r_entry r3 <=? r_pc r3) || stack_is_full r3 then set_cont (set_stack r3 []) StStopped else r3 in
+      Ok (r4, EvRunning)
+  end = Ok (r', e) ->
+  r_cont r' = StRunning /\ r_cont_pc r' = r_pc r2 /\ r_stack r' = r_stack r2 /\ r_vars r' = r_vars r2 /\ r_pc r' = r_pc r2
+  /\ r_prog r' = r_prog r2 /\ r_listing r' = r_listing r2.
+Proof. exact break_saves. Qed.
+Print Assumptions C13_break_saves.
+
+(* CONT puts exactly that state and address back, empties the slot and touches nothing else *)
+Theorem C13_cont_restores : forall r st, r_cont r = st -> is_stopped st = false -> r_state r = StRunning ->
+  fst (do_cont r) = set_pc (set_cont (set_state r st) StStopped) (r_cont_pc r)
+  /\ snd (do_cont r) = Ok (if is_running st then None else Some EvRunning).
+Proof. exact cont_restores. Qed.
+Print Assumptions C13_cont_restores.
+
+Theorem C13_cont_refused : forall r, r_cont r = StStopped -> do_cont r = (r, err E_CantContinue).
+Proof. exact cont_refused. Qed.
+Print Assumptions C13_cont_refused.
